@@ -174,7 +174,13 @@ pub struct NodeMsg {
 pub struct DumpResp {
     pub store: Vec<(Binary, Binary)>,
     pub balance: Vec<Coin>,
+    /// which code answered (the puppet's tag = its code id in the tree worlds)
+    #[serde(default)]
+    pub tag: u8,
 }
+
+/// The entry the querying side adds to a dumped store: which code answered the smart query.
+pub const ANSWERED_BY: &[u8] = b"\xff<smart query answered by code>";
 
 fn all_balances<Q: CustomQuery>(q: &QuerierWrapper<Q>, addr: &str) -> Coins {
     #[allow(deprecated)]
@@ -199,7 +205,11 @@ fn make_bundle(deps: &Deps, env: &Env, w: &Watch) -> Bundle {
         let r: Result<DumpResp, _> = deps.querier.query_wasm_smart(c.clone(), &Empty {});
         b.dumps.push((
             c.clone(),
-            r.ok().map(|d| (d.store.into_iter().map(|(k, v)| (k.to_vec(), v.to_vec())).collect(), from_coins(&d.balance))),
+            r.ok().map(|d| {
+                let mut store: Dump = d.store.into_iter().map(|(k, v)| (k.to_vec(), v.to_vec())).collect();
+                store.push((ANSWERED_BY.to_vec(), vec![d.tag]));
+                (store, from_coins(&d.balance))
+            }),
         ));
     }
     if w.ext {
@@ -385,7 +395,7 @@ impl Contract<Empty, Empty> for Puppet {
         let store: Vec<(Binary, Binary)> = deps.storage.range(None, None, Order::Ascending).map(|(k, v)| (Binary::from(k), Binary::from(v))).collect();
         #[allow(deprecated)]
         let balance = deps.querier.query_all_balances(env.contract.address)?;
-        Ok(to_json_binary(&DumpResp { store, balance })?)
+        Ok(to_json_binary(&DumpResp { store, balance, tag: self.tag })?)
     }
 
     fn sudo(&self, deps: DepsMut, env: Env, msg: Vec<u8>) -> AnyResult<Response> {
